@@ -141,6 +141,26 @@ def engine_ksched(pid, tier, seed, res, max_n=None):
         if n_bad >= 4:
             res.notes.append("stopped after %d cases: %d runs could not be driven / hung" % (ci + 1, n_bad))
             break
+    # exhaustive exploration of the controller's choices (every completion order, every set of simultaneous
+    # completions) for small cases: the corpus in the quick tier, all small shapes in the thorough tier
+    n_complete = 0
+    dfs_cases = [c for c in cases[:corpus_n] if c.get("mode", "call") == "call"][: (4 if tier == "quick" else 8)]
+    if tier == "thorough":
+        for n_, edges_ in sched_cases.all_small_shapes(3):
+            for _ in range(2):
+                c = sched_cases.gen_case(rng, max_n=n_, mode_mix=False)
+                c["n"], c["edges"] = n_, edges_
+                c["attrs"] = (c["attrs"] + [dict(priority=rng.randint(-1, 1), is_sequential=rng.random() < 0.3, resource=rng.choice(["thread", "async-thread", "main-thread"])) for _ in range(n_)])[:n_]
+                c["rets"] = (c["rets"] + [1] * n_)[:n_]
+                c["flags"] = {k2: v2 for k2, v2 in c["flags"].items() if int(k2) < n_ and (v2[0] == "const" or v2[1] < int(k2))}
+                c["fails"] = [i for i in c["fails"] if i < n_]
+                c["maxc"] = rng.randint(1, 3)
+                dfs_cases.append(c)
+    for c in dfs_cases:
+        recs, complete = ksched.explore_all_schedules(c, max_runs=40 if tier == "quick" else 250)
+        records.extend(recs)
+        n_complete += 1 if complete else 0
+    res.notes.append("all schedules explored exhaustively for %d of %d small cases (%s)" % (n_complete, len(dfs_cases), "quick: corpus" if tier == "quick" else "all shapes <= 3 nodes x 2 attribute assignments + corpus"))
     info = ksched.evaluate(records, prefix="ksched_%s" % pid)
     res.engine_info["ksched"] = dict(cases=len(cases), corpus=corpus_n, exhaustive_small=exhaustive, **{k: v for k, v in info.items() if k != "errors"})
     if info["errors"]:
@@ -359,3 +379,6 @@ REGISTRY["C16"] = dict(engines=[engine_kthread.run_threads], rule=("K-thread cas
 REGISTRY["C17"] = dict(engines=[engine_kthread.run_async, engine_ksched], rule=("K-async: every generated describing function built in both flavours: value, executed node multiset; gathered concurrent awaits with distinct arguments vs the plain reference; "
                        "event-loop liveness: an async-thread node that completes only after a sibling coroutine of the same loop has run || " + SCHED_RULE),
                        assumptions=["the event loop itself (asyncio) is not modelled; liveness is monitored"])
+
+REGISTRY["C02"]["engines"] = [engine_ksched, engine_kvalue.run]
+REGISTRY["C02"]["rule"] = SCHED_RULE + " || " + VALUE_RULE
